@@ -7,6 +7,8 @@ import (
 	"strings"
 	"testing"
 
+	"github.com/flosch/pongo2/v6"
+
 	"pgregory.net/rapid"
 )
 
@@ -62,7 +64,17 @@ func (g *c09Gen) arr() ME {
 }
 
 func (g *c09Gen) cond() ME {
-	switch drawInt(g.t, 0, 6, "ck") {
+	switch drawInt(g.t, 0, 7, "ck") {
+	case 7:
+		// an ordering of two integers, the extremes of int64 among them
+		ints := func() ME {
+			if drawBool(g.t, "ilit") {
+				return ME{K: "int", I: drawInt(g.t, 0, 6, "il2")}
+			}
+			return ME{K: "name", N: pick(g.t, "iname", []string{"i0", "i1", "i5", "imin", "imax", "imin", "imax"})}
+		}
+		l, r := ints(), ints()
+		return ME{K: "lt", L: &l, R: &r}
 	case 6:
 		l, r := g.scalar(), g.arr()
 		return ME{K: "in", L: &l, R: &r}
@@ -133,7 +145,7 @@ func (g *c09Gen) node(depth int) MNode {
 	case "for":
 		g.ids++
 		v := fmt.Sprintf("v%d", g.ids)
-		src := pick(g.t, "src", []string{"l0", "l1", "l3", "l6", "sl", "e0", "su", "sx", "m2", "m0", "nothing", "i5", "fl", "mi", "hl", "hm", "al", "asl", "ma"})
+		src := pick(g.t, "src", []string{"l0", "l1", "l3", "l6", "sl", "e0", "su", "sx", "m2", "m0", "nothing", "i5", "fl", "mi", "hl", "hm", "al", "asl", "ma", "zstr"})
 		e := ME{K: "name", N: src}
 		nd := MNode{K: "for", Name: v, E: &e, Rev: drawInt(g.t, 0, 2, "rev") == 0, Sorted: drawInt(g.t, 0, 2, "sorted") == 0}
 		if drawInt(g.t, 0, 4, "arrlit") == 0 {
@@ -239,6 +251,9 @@ func c09Ctx(t *rapid.T) Val {
 		"hm", Val{K: "mapIS", Ks: []Val{vIntK("int", 9007199254740993), vIntK("int", 9007199254740992), vIntK("int", 9007199254740994)}, E: []Val{vStr("b"), vStr("a"), vStr("c")}},
 		// lists of type []any (what JSON decoding and template array literals give)
 		"al", Val{K: "anys", E: []Val{vInt(10), vInt(9), vInt(-1), vInt(100), vInt(2)}}, "asl", Val{K: "anys", E: []Val{vStr("b"), vStr("a"), vStr("c")}},
+		"imin", vIntK("int", -9223372036854775808), "imax", vIntK("int", 9223372036854775807),
+		// a named string type that prints differently (fmt.Stringer): a loop walks the string itself
+		"zstr", Val{K: "strStr", S: "héa"},
 		"ma", Val{K: "mapAA", Ks: []Val{vInt(10), vInt(9), vInt(-1), vInt(100), vInt(2)}, E: []Val{vStr("ten"), vStr("nine"), vStr("minus"), vStr("hundred"), vStr("two")}},
 		"mi", Val{K: "mapIS", Ks: []Val{vInt(10), vInt(9), vInt(-1), vInt(100), vInt(2)}, E: []Val{vStr("ten"), vStr("nine"), vStr("minus"), vStr("hundred"), vStr("two")}},
 	)
@@ -380,3 +395,128 @@ var _ = register(&propSpec{
 })
 
 func TestC09Complement(t *testing.T) { runProp(t, "C09.complement") }
+
+// ---- C09.nilvalues: elements and map values that are nil ---------------------------------------
+// "once per element ... key/value over maps as requested": an element that is nil is an element;
+// the loop variables are bound anew in every iteration, also to nothing.
+
+type c09NilP struct{ Name string }
+
+type c09Nil struct {
+	Vals  []string `json:"vals"`  // per entry: a name, or "" for a nil pointer / nil interface
+	Kind  string   `json:"kind"`  // ptrmap anymap ptrlist anylist
+	Outer string   `json:"outer"` // how the value variable's name is bound outside the loop: "" ctx with
+}
+
+func checkC09Nil(c any, r *Rec) error {
+	cs := c.(*c09Nil)
+	ctx := pongo2.Context{}
+	var want strings.Builder
+	keys := []string{"a", "b", "c", "d", "e"}
+	switch cs.Kind {
+	case "ptrmap":
+		m := map[string]*c09NilP{}
+		for i, v := range cs.Vals {
+			if v == "" {
+				m[keys[i]] = nil
+			} else {
+				m[keys[i]] = &c09NilP{Name: v}
+			}
+		}
+		ctx["m"] = m
+	case "anymap":
+		m := map[string]any{}
+		for i, v := range cs.Vals {
+			if v == "" {
+				m[keys[i]] = nil
+			} else {
+				m[keys[i]] = c09NilP{Name: v}
+			}
+		}
+		ctx["m"] = m
+	case "ptrlist":
+		l := []*c09NilP{}
+		for _, v := range cs.Vals {
+			if v == "" {
+				l = append(l, nil)
+			} else {
+				l = append(l, &c09NilP{Name: v})
+			}
+		}
+		ctx["m"] = l
+	default:
+		l := []any{}
+		for _, v := range cs.Vals {
+			if v == "" {
+				l = append(l, nil)
+			} else {
+				l = append(l, &c09NilP{Name: v})
+			}
+		}
+		ctx["m"] = l
+	}
+	isMap := cs.Kind == "ptrmap" || cs.Kind == "anymap"
+	src := `{% for v in m %}[{{ v.Name }}]{% endfor %}`
+	if isMap {
+		src = `{% for k, v in m sorted %}{{ k }}={{ v.Name }};{% endfor %}`
+	}
+	for i, v := range cs.Vals {
+		if isMap {
+			want.WriteString(keys[i] + "=" + v + ";")
+		} else {
+			want.WriteString("[" + v + "]")
+		}
+	}
+	outerWant := ""
+	switch cs.Outer {
+	case "ctx":
+		ctx["v"] = c09NilP{Name: "OUT"}
+		outerWant = "OUT"
+	case "with":
+		src = `{% with v=outer %}` + src + `|{{ v.Name }}{% endwith %}`
+		ctx["outer"] = c09NilP{Name: "OUT"}
+		outerWant = "OUT"
+	}
+	if cs.Outer != "with" {
+		src += "|{{ v.Name }}"
+	}
+	tpl, err := pongo2.NewSet("c09nil", &memLoader{}).FromString(src)
+	if err != nil {
+		return err
+	}
+	for round := 0; round < 2; round++ {
+		got, xerr := tpl.Execute(ctx)
+		if xerr != nil {
+			return fmt.Errorf("%s with values %q (%s): unexpected error %v", src, cs.Vals, cs.Kind, xerr)
+		}
+		if exp := want.String() + "|" + outerWant; got != exp {
+			return fmt.Errorf("%s with values %q (%s; \"\" = nil): rendered %q, want %q (one pass per element, the variable bound anew - also to nothing - in each)", src, cs.Vals, cs.Kind, got, exp)
+		}
+	}
+	nils := 0
+	for i, v := range cs.Vals {
+		if v == "" && i > 0 {
+			nils++
+		}
+	}
+	if nils > 0 {
+		r.NonTrivial(fmt.Sprint(*cs))
+	}
+	return nil
+}
+
+var _ = register(&propSpec{
+	ID:   "C09.nilvalues",
+	Rule: "for loops over 1-5 elements some of which are nil: a map[string]*T and a map[string]any (k, v sorted), a []*T and a []any; the value variable's name may also be bound outside the loop (context entry, enclosing with). One pass per element in order, `{{ v.Name }}` empty for the nil ones (never the previous element's or the outer binding's), the outer binding intact afterwards. Rendered twice. Non-trivial: a nil element after the first position.",
+	Gen: func(t *rapid.T) any {
+		cs := &c09Nil{Kind: pick(t, "kind", []string{"ptrmap", "anymap", "ptrlist", "anylist"}), Outer: pick(t, "outer", []string{"", "ctx", "with"})}
+		for n := drawInt(t, 1, 5, "n"); n > 0; n-- {
+			cs.Vals = append(cs.Vals, pick(t, "val", []string{"", "", "Ann", "Cy", "Bo"}))
+		}
+		return cs
+	},
+	New:   func() any { return &c09Nil{} },
+	Check: checkC09Nil,
+})
+
+func TestC09NilValues(t *testing.T) { runProp(t, "C09.nilvalues") }
